@@ -17,7 +17,11 @@
     $lookup     `specLookupDoc` on every document (top-level `localField`, `foreignField`, `as`)
     $addFields / $set   every entry's expression is evaluated on the INPUT document; the document
                 gets `name: value` for each entry in order (an existing field keeps its place, a
-                new one is appended, a missing value leaves the document alone)
+                new one is appended, a missing value leaves the document alone); a dotted name
+                writes into the sub-document it names, creating it — or putting it in the place
+                of a scalar — where needed (`setNested`; an ARRAY on the way is outside this
+                oracle: MongoDB writes into each of its elements); no name may be a prefix of
+                another one
     $replaceRoot   the value of `newRoot`, which must be a document
     $facet      one document `{name: output of the sub-pipeline on the same input, …}`
 
@@ -148,12 +152,28 @@ def specLookupStage (db : Pipe.Db) (opts : Val) (docs : List Val) : Option (List
 
 /-! ### `$addFields` / `$set`, `$replaceRoot` -/
 
+/-- a (possibly dotted) field name: no `$`, no empty component -/
+def pathName (s : String) : Bool :=
+  !s.toList.contains '$' && (splitDots s).all (· ≠ "")
+
+/-- an array stands on the way of the dotted name (strictly above its last component) -/
+def arrayOnPath : List String → Fields → Bool
+  | [], _ => false
+  | [_], _ => false
+  | k :: k' :: ks, fs =>
+    match dget k fs with
+    | some (.arr _) => true
+    | some (.doc g) => arrayOnPath (k' :: ks) g
+    | _ => false
+
 /-- the entries applied to `acc`, every expression read on the input document `d` -/
 def specSetFields (d : Val) : Fields → Fields → Option Fields
   | [], acc => some acc
   | (name, e) :: rest, acc =>
     match exprValue e d with
-    | some (some v) => specSetFields d rest (dset name v acc)
+    | some (some v) =>
+      if arrayOnPath (splitDots name) acc then none
+      else specSetFields d rest (setNested (splitDots name) v acc)
     | some none => specSetFields d rest acc
     | none => none
 
@@ -164,7 +184,8 @@ def specAddFieldsDoc (entries : Fields) : Val → Option Val
 def specAddFieldsStage (opts : Val) (docs : List Val) : Option (List Val) :=
   match opts with
   | .doc entries =>
-    if entries.isEmpty || !(entries.all (fun kv => plainName kv.1)) || !(nodupKeys entries) then none
+    if entries.isEmpty || !(entries.all (fun kv => pathName kv.1)) ||
+        !(Spec.Proj.noCollision (entries.map (fun kv => splitDots kv.1))) then none
     else mapOpt (specAddFieldsDoc entries) docs
   | _ => none
 
@@ -208,7 +229,7 @@ def specFacet (db : Pipe.Db) : Fields → List Val → Option Fields
 
   known findings (named as in Spec/PipelineDomain.lean): groupnullempty, groupfalsyid,
   groupboolnum, groupdockey, addtosetfalsy, firstmissing, minmaxtypes, sumbool, lookupboolnum,
-  addfieldsorder (dotted names: outside `specAddFieldsStage` altogether), and the new
+  and the new
   accmissing (an accumulator whose argument is an operator with a missing operand skips the
   document where the rules give the operator a null operand; witness
   `Props.C03.group_operator_arg_full_fails`);
